@@ -624,6 +624,61 @@ def cancel_scenario(real, n, k, ci, extra, order, maxwait=60):
     return evs
 
 
+def fleet_same_instant_scenario(real, first_at, fill_after_timer=True, maxwait=40):
+    """fleet: one item loaded at tick first_at, the dispatch timer expires and sends it alone; in that very instant another
+    put fills the fleet (capacity 2): it must depart again at once.  Then everything is taken."""
+    evs = []
+
+    def numbered(tok):
+        for i, t in enumerate(real.live_tokens()):
+            if t is tok:
+                return i + 1
+        return 0
+
+    def do(c):
+        base = {"op": "", "p": 1, "n": 0, "prio": 0, "flt": 1, "tag": 0, "d": 0}
+        base.update(c)
+        ev, _ = real.call(base)
+        evs.append(ev)
+        return ev
+
+    def tick():
+        evs.extend(real.settle_events())
+        evs.append(real.tick())
+
+    def put_one():
+        do({"op": "rp", "p": 1})
+        tok = real.tokens[-1]
+        evs.extend(real.settle_events())
+        if tok["ev"].triggered:
+            do({"op": "put", "p": 1, "n": numbered(tok)})
+            return True
+        return False
+
+    for _ in range(first_at):
+        tick()
+    put_one()
+    fd = real.cfg["fdelay"]
+    while real.now % fd != 0 or real.now == 0 or real.now < first_at + 1:
+        tick()
+    if fill_after_timer:
+        evs.extend(real.settle_events())      # the timer's departure has happened; same instant:
+    put_one()
+    evs.extend(real.settle_events())
+    for _ in range(2 * real.cfg["transit"] + fd + 2):
+        tick()
+    evs.extend(real.settle_events())
+    for i in range(2):
+        do({"op": "rg", "p": 2})
+        tok = real.tokens[-1]
+        evs.extend(real.settle_events())
+        if tok["ev"].triggered:
+            do({"op": "get", "p": 2, "n": numbered(tok)})
+    tick()
+    evs.extend(real.settle_events())
+    return evs
+
+
 def reexecute(cfg, events, nprocs=3):
     """Replay a recorded store trace on the CURRENT tree: the same calls (tokens by their recorded numbers), the same
     ticks and end-of-instant points.  Returns the newly recorded trace."""
